@@ -137,7 +137,10 @@ def rule_cli(ck: Check, repo: Repo) -> None:
     fn = cmds["download"]
     q = repo.qualname_of(fn)
     ck.analysed_fn(q, f"{DL}._path_to_license_file")
-    PUT = "put_license_in_file(lic, destination="
+    exits = find_calls(fn, lambda c, f: f == "sys.exit")
+    rc = ast.unparse(exits[0].args[0]) if len(exits) == 1 and exits[0].args and isinstance(exits[0].args[0], ast.Name) else None
+    if rc is None:
+        rc = "return_code"  # the comparison below then reports that the exit status is not the accumulated code
 
     class H(Hooks):
         def atom(self, text, node, it):
@@ -160,7 +163,7 @@ def rule_cli(ck: Check, repo: Repo) -> None:
             return []
 
         def track_assign(self, name):
-            return name in ("return_code", "licenses", "destination")
+            return name in (rc, "licenses", "destination")
 
         def keep_carried(self, name):
             return name == "licenses"
@@ -201,7 +204,7 @@ def rule_cli(ck: Check, repo: Repo) -> None:
             if leaf.outcome[:2] != ("raise", "UsageError") or puts:
                 r.violation(q, f"usage error expected [{name}]", f"{leaf.outcome[:2]}, puts={len(puts)}", repo.loc(fn))
             continue
-        if leaf.outcome[0] != "exit" or "return_code" not in leaf.outcome[1]:
+        if leaf.outcome[0] != "exit" or leaf.outcome[1] != f"{rc}__after_loop":
             r.violation(q, f"exit status [{name}]", f"{leaf.outcome}: the command must exit with the accumulated return code",
                         repo.loc(fn))
         assigns = [e for il, e in flat if e[0] == "assign"]
@@ -212,11 +215,11 @@ def rule_cli(ck: Check, repo: Repo) -> None:
             gen = [e for il, e in flat if e[0] == "generate"]
             if not gen or "missing_licenses.keys()" not in (lic_assign[-1][2] if lic_assign else ""):
                 r.violation(q, "--all does not take the report's missing licences", f"{lic_assign}", repo.loc(fn))
-        rc0 = [e for il, e in flat if e[0] == "assign" and e[1] == "return_code" and not il]
+        rc0 = [e for il, e in flat if e[0] == "assign" and e[1] == rc and not il]
         if [e[2] for e in rc0] != ["0"]:
             r.violation(q, "return code initialisation", f"{rc0}", repo.loc(fn))
         raised = [k for k, v in d.items() if "raise[" in k and v]
-        in_rc = [e for il, e in flat if il and e[0] == "assign" and e[1] == "return_code"]
+        in_rc = [e for il, e in flat if il and e[0] == "assign" and e[1] == rc]
         ends = [e for il, e in flat if il and e[0] == "element-end"]
         reports = [e[1] for il, e in flat if il and e[0] == "report"]
         if len(puts) != 1:
